@@ -2,6 +2,7 @@
 from __future__ import annotations
 
 import json
+from pathlib import Path
 
 from .. import engine, witness
 from ..common import Report, run_cases, seed, tier
@@ -99,6 +100,9 @@ def judge(rep: Report, res: dict, *, clean: bool) -> None:
                   key=f"{o}:{d.get('why', '')}:{d.get('fw', '')[:20]}:{res['source'][:0]}{len(rep.violations)}")
 
 
+PROBE_CONTEXTS = json.loads((Path(__file__).resolve().parent.parent / "gen" / "probe_contexts.json").read_text())
+
+
 def run_probe(case):
     name, ctx, src = case
     res = engine.differential(src, passes=2, hazards=False)
@@ -140,7 +144,9 @@ def main() -> int:
         d = res.get("divergence") or {}
         msg = f"feature probe {name} ({ctx}): accepted but {o}: {d.get('why') or res.get('diag') or res.get('exc')} fw={d.get('fw')} py={d.get('py')}"
         fid = probes.PROBE_FINDINGS.get(name)
-        if fid and fid in rep.open_findings:
+        # a finding explains a probe only in the block contexts where it was recorded (vlib/gen/probe_contexts.json, never written
+        # at run time): the same construct failing in a NEW context is a different violation
+        if fid and fid in rep.open_findings and ctx in PROBE_CONTEXTS.get(name, {}):
             rep.known(fid, msg, w)
         else:
             rep.violation(msg, w, key=f"probe:{name}:{o}")
